@@ -10,14 +10,15 @@ let ftype = function
   | L [A "class"; i] -> FClass (nat_of_int (int_of i)) | L [A "cclass"; i] -> FConstClass (nat_of_int (int_of i)) | _ -> failwith "ftype"
 
 (* class: ((BASE ...) (FIELD ...) (METHOD ...) dctor cctor cctor_nonconst other_ctor move dtor)
-   BASE = (idx access virtual)  FIELD = (ftype init static)  METHOD = (name sig virtual pure deleted)  dtor = - | (access deleted virtual) *)
+   BASE = (idx access virtual)  FIELD = (ftype init static)  METHOD = (name sig virtual pure deleted)  dtor = - | (access deleted virtual) | (access deleted virtual pure) *)
 let cls = function
   | L [L bs; L fs; L ms; dc; cc; ccn; oc; mv; dt] ->
     { c_bases = List.map (function L [i; a; v] -> { b_class = nat_of_int (int_of i); b_access = acc a; b_virtual = bl v } | _ -> failwith "base") bs;
       c_fields = List.map (function L [t; i; s] -> { f_ty = ftype t; f_init = bl i; f_static = bl s } | _ -> failwith "field") fs;
       c_methods = List.map (function L [n; s; v; p; d] -> { m_name = nat_of_int (int_of n); m_sig = nat_of_int (int_of s); m_virtual = bl v; m_pure = bl p; m_deleted = bl d } | _ -> failwith "method") ms;
       c_dctor = special dc; c_cctor = special cc; c_cctor_nonconst = bl ccn; c_other_ctor = bl oc; c_move = bl mv;
-      c_dtor = (match dt with A "-" -> None | L [a; d; v] -> Some ({ sp_access = acc a; sp_deleted = bl d }, bl v) | _ -> failwith "dtor") }
+      c_dtor = (match dt with A "-" -> None | L (a :: d :: v :: _) -> Some ({ sp_access = acc a; sp_deleted = bl d }, bl v) | _ -> failwith "dtor");
+      c_dtor_pure = (match dt with L [_; _; _; p] -> bl p | _ -> false) }
   | x -> failwith ("class " ^ show x)
 
 let b x = if x then "1" else "0"
